@@ -203,4 +203,52 @@ example : exF9.verdict ['1'] 6 = .ok .accept ∧ simVerdict exF9 '^' '_' ['1'] 6
   decide
 example : readExtended '^' '_' "1^_#^_".toList = .ok ['1', '#'] := by decide
 
+/-! ## The boundary of the domain: the marks inside the tape alphabet or the input
+
+`validate` does not reserve `'^'` / `'_'` and the library never checks an input string, so the
+two hypotheses `halpha` / `hw` of `C17_verdict_char` exclude inputs that lie inside the property's
+literal quantifier ("all valid machines, all inputs").  On them the property **fails**; the two
+theorems below prove it on the model with concrete witnesses (open finding
+`C17:mark-symbol-in-alphabet-or-input` in `known_findings.json`; `harness/ops/C17.py` produces
+the same inputs on the real code on every run — family `mark_alphabets` — and compares model and
+code there, too). -/
+
+/-- `q0 -_/_,R→ qf` over the tape alphabet `{'_', '#'}`: a valid one-tape machine whose tape
+alphabet contains the separator mark. -/
+def exU : MNTM Nat Char :=
+  { states := [0, 1], inputSyms := ['_'], tapeSyms := ['_', '#'], nTapes := 1,
+    trans := [(0, [(['_'], [(1, [('_', .R)])])])],
+    init := 0, blank := '#', finals := [1] }
+
+/-- **`halpha` cannot be dropped**: `exU` is valid and has one tape, the native run accepts
+`"_"`, the single-tape simulation raises `MalformedExtendedTapeError` (its initial extended tape
+`"_^_"` has a separator before the first head mark). -/
+theorem C17_mark_in_alphabet_fails :
+    exU.validate = .ok () ∧ 1 ≤ exU.nTapes ∧
+    exU.verdict ['_'] 5 = .ok .accept ∧
+    simVerdict exU '^' '_' ['_'] 5 = .error (.lib .malformedExtendedTapeError) ∧
+    ¬ (∀ a ∈ exU.tapeSyms, a ≠ '^' ∧ a ≠ '_') := by decide
+
+/-- **`hw` cannot be dropped**: `exF9` satisfies `SimDomain` (valid, two tapes, tape alphabet
+`{'1', '#'}`), the native run rejects the input `"^"` (no row for it), the simulation raises
+`MalformedExtendedTapeError` (head mark right after a head mark). -/
+theorem C17_mark_in_input_fails :
+    SimDomain exF9 '^' '_' ∧
+    exF9.verdict ['^'] 5 = .ok .reject ∧
+    simVerdict exF9 '^' '_' ['^'] 5 = .error (.lib .malformedExtendedTapeError) :=
+  ⟨⟨by decide, by decide, by decide, by decide⟩, by decide, by decide⟩
+
+/-- A machine that *writes* the head mark (`'^'` in its tape alphabet, clean input):
+`q0 -0/^,R→ q1 -#/#,N→ qf`.  Natively it accepts `"0"`; the simulation's second extended tape
+is `"^#^_"`, which `_read_extended_tape` refuses. -/
+def exW : MNTM Nat Char :=
+  { states := [0, 1, 2], inputSyms := ['0'], tapeSyms := ['0', '^', '#'], nTapes := 1,
+    trans := [(0, [(['0'], [(1, [('^', .R)])])]), (1, [(['#'], [(2, [('#', .N)])])])],
+    init := 0, blank := '#', finals := [2] }
+
+theorem C17_mark_written_fails :
+    exW.validate = .ok () ∧ exW.verdict ['0'] 5 = .ok .accept ∧
+    (simStepwise exW '^' '_' ['0'] 5).1.map (fun e => String.ofList e.2.1) = ["0^_", "^#^_"] ∧
+    simVerdict exW '^' '_' ['0'] 5 = .error (.lib .malformedExtendedTapeError) := by decide
+
 end AV.Props.C17
